@@ -71,9 +71,34 @@ type Scenario struct {
 	Cut      int                `json:"cut,omitempty"`
 	Input    []byte             `json:"input,omitempty"` // explicit bytes (corruption scenarios)
 	Mutation string             `json:"mutation,omitempty"`
-	Perm     []int              `json:"perm,omitempty"`  // map-entry permutation for reference-peer encodings
-	Trail    int                `json:"trail,omitempty"` // guard bytes after the last record
+	Perm     []int              `json:"perm,omitempty"`     // map-entry permutation for reference-peer encodings
+	Trail    int                `json:"trail,omitempty"`    // guard bytes after the last record
+	Tasks    []TaskSpec         `json:"tasks,omitempty"`    // concurrent callers (C14)
+	Switches []Switch           `json:"switches,omitempty"` // baton schedule: at global step s run task t
+	Ops      []FileOp           `json:"ops,omitempty"`      // CLI scenarios (C19)
 	Extra    map[string]string  `json:"extra,omitempty"`
+}
+
+// TaskSpec is one concurrent caller of the library (C14).
+type TaskSpec struct {
+	Op       string   `json:"op"` // generate | validate | format | readfile
+	Mask     int      `json:"mask,omitempty"`
+	Combined bool     `json:"combined,omitempty"`
+	MapOrder MapOrder `json:"order"`
+}
+
+// Switch hands the baton to Task at the first yield point whose global step is >= Step.
+type Switch struct {
+	Step int `json:"s"`
+	Task int `json:"t"`
+}
+
+// FileOp is a fault injected into a CLI run (C19): at the Index-th os operation.
+type FileOp struct {
+	Index   int    `json:"index"`
+	Kind    string `json:"kind"`              // error | torn | crash-before | crash-after
+	Errno   string `json:"errno,omitempty"`   // EACCES, ENOSPC, EIO, ...
+	Partial int    `json:"partial,omitempty"` // bytes written by a torn write
 }
 
 type Violation struct {
